@@ -1103,6 +1103,7 @@ fn package(c: &Case, class: String, detail: String, entropy_seed: u64) -> Violat
             "fault": c.fault.as_ref().map(|f| f.to_json()).unwrap_or(Value::Null),
             "entropy_seed": entropy_seed,
         }),
+        unminimised_replay: None,
     }
 }
 
@@ -1377,7 +1378,8 @@ pub fn check(ctx: &Ctx) -> i32 {
             }
             let seed = mix(ctx.seed, tag("C10-ff-entropy"), rep.case_idx as u64);
             let (mc, detail) = minimise(c, class, seed);
-            let v = package(&mc, class.clone(), detail, seed);
+            let mut v = package(&mc, class.clone(), detail.clone(), seed);
+            v.unminimised_replay = Some(package(c, class.clone(), detail, seed).replay);
             if seen_keys.insert(v.key.clone()) {
                 violations.push(v);
             }
@@ -1467,18 +1469,41 @@ pub fn check(ctx: &Ctx) -> i32 {
             // rotate the base settings over the faults; faults in the settings themselves, and
             // (thorough tier, small bases) all faults, run under every base setting
             let all = matches!(f, Fault::NoCompactPath | Fault::NoBitsPath)
-                || (ctx.tier == Tier::Thorough && b.reg.types.len() <= 300);
+                || (ctx.tier == Tier::Thorough && b.reg.types.len() <= 300)
+                || (ctx.tier == Tier::Quick && b.reg.types.len() <= 40);
             let which: Vec<usize> = if all {
                 (0..base_settings.len()).collect()
             } else {
                 vec![k % base_settings.len()]
             };
             for s in which {
+                let mut ops = base_settings[s].1.clone();
+                if s == 2 {
+                    // the substituted paths are re-drawn per fault (0-3 of them): which types are
+                    // "not generated because substituted" decides which fault sites turn from
+                    // must into may, i.e. which otherwise unreachable emission paths get exercised
+                    let mut rng = Rng::new(mix(ctx.seed, tag("C10-per-fault-subs"), (bi as u64) << 32 | k as u64));
+                    let gen_paths: Vec<String> = b
+                        .reg
+                        .types
+                        .iter()
+                        .filter(|t| refmodel::is_generated_kind(&t.ty))
+                        .map(|t| refmodel::path_text(&t.ty))
+                        .collect();
+                    ops = standard_ops();
+                    let nsub = rng.usize_below(4).min(gen_paths.len());
+                    for (i, p) in rng.subset(&gen_paths, nsub).iter().enumerate() {
+                        ops.push(Op::SubInsert {
+                            src: p.clone(),
+                            tgt: format!("::subst::S{i}"),
+                        });
+                    }
+                }
                 fault_cases.push(Case {
                     reg_name: b.name.clone(),
                     reg: b.reg.clone(),
                     sw: base_settings[s].0.clone(),
-                    ops: base_settings[s].1.clone(),
+                    ops,
                     fault: Some(f.clone()),
                 });
             }
@@ -1557,7 +1582,11 @@ pub fn check(ctx: &Ctx) -> i32 {
             let group = format!("{}|{}|{}", c.reg_name, rep.kind, class);
             if seen_keys.insert(group) && violations.len() < 8 {
                 let v = match shrink_fault_case(c, class, seed) {
-                    Some((small, d)) => package(&small, class.clone(), d, seed),
+                    Some((small, d)) => {
+                        let mut v = package(&small, class.clone(), d, seed);
+                        v.unminimised_replay = Some(package(c, class.clone(), detail.clone(), seed).replay);
+                        v
+                    }
                     None => package(c, class.clone(), detail.clone(), seed),
                 };
                 violations.push(v);
